@@ -3,6 +3,7 @@ import XPathV.Generated.ExtraFacts
 import XPathV.Lemmas.C17Base
 import XPathV.Lemmas.ParserTokens
 import XPathV.Lemmas.ScanTail
+import XPathV.Lemmas.BuildRejects
 /-!
 # C17 — truncated or ill-formed expressions are rejected by Compile (property-level theorems)
 
@@ -161,5 +162,94 @@ theorem min_arities : (Generated.funcTable.map (fun e => (e.names.headD "", e.mi
      ("substring-before", 2), ("string-length", 1), ("normalize-space", 0), ("replace", 3), ("translate", 3), ("not", 1),
      ("name", 0), ("true", 0), ("last", 0), ("position", 0), ("boolean", 0), ("count", 1), ("sum", 1), ("ceiling", 1),
      ("concat", 2), ("reverse", 1), ("string-join", 2)] := by decide
+
+/-! ## Second half of the property: unknown functions, missing arguments, unknown axes, malformed names
+
+(`Lemmas/BuildRejects*`.  `BadNode t`: somewhere the builder recurses into, the tree has a call of an unknown
+function, a call with fewer arguments than the function requires or more than it allows, or a step with an
+unknown axis name.) -/
+section Rejects
+open XPathV.BuildRejects
+
+/-- **tree level**: the builder model fails on every tree with a bad node — for every regexp oracle, depth limit,
+builder configuration, flags and state (induction over all node kinds) -/
+theorem C17_builder_rejects_bad_tree (rx : RegexOk) (lim : Nat) (sn sd : Bool) (t : Ast) (fl : Flags) (st : BState)
+    (h : Bad t fl.take = true) : ∃ e, build rx lim sn sd t fl st = .error e :=
+  build_fails_of_bad rx lim sn sd t fl st h
+
+/-- **from the text**: if the parser accepts `text` with a tree that has a bad node, `Compile` is an error (never an
+expression), at every configuration and namespace map -/
+theorem C17_compile_rejects_bad_tree (cc : CompileCfg) (ns : Option (List (String × String))) (text : List Char)
+    (t : Ast) (hp : parse (fuelFor text) (defaultCfg ns) text = .ok t) (hb : BadNode t = true) :
+    ∃ e, compile cc ns text = .error (.build e) :=
+  compile_fails_of_bad cc ns text t hp hb
+
+/-- conversely an accepted expression has no bad node -/
+theorem C17_compiled_has_no_bad_node (cc : CompileCfg) (ns : Option (List (String × String))) (text : List Char)
+    (p : Plan) (h : compile cc ns text = .ok p) :
+    ∃ t, parse (fuelFor text) (defaultCfg ns) text = .ok t ∧ BadNode t = false :=
+  no_bad_node_of_compile_ok cc ns text p h
+
+/-- **a function renamed to an unknown name** (anywhere in the expression): `text'` has the token stream of the
+accepted `text` except that one function-name token `g` reads `g'`, which the builder does not know -/
+theorem C17_function_renamed_rejected (cc : CompileCfg) (ns : Option (List (String × String))) {g g' : String}
+    (hne : g ≠ g') (hg : g ∉ nodeTypes) (hg' : g' ∉ nodeTypes) (ho : g ∉ opWords stages) (ho' : g' ∉ opWords stages)
+    (hunk : fnArity g' = none) {text text' : List Char} {s s' : Scan} {k : Nat}
+    (hi : Scan.init text = .ok s) (hi' : Scan.init text' = .ok s') (hB : Before g g' k s s')
+    {t : Ast} (hp : parse (fuelFor text) (defaultCfg ns) text = .ok t) (hu : NoSuperfluousArgs t = true) :
+    ∃ e, compile cc ns text' = .error e :=
+  compile_fails_after_rename cc ns hne hg hg' ho ho' hunk hi hi' hB hp hu
+
+/-- … at the character level when the renamed function starts the expression: every accepted `G(…)…` with `G`
+replaced by an unknown plain name is rejected -/
+theorem C17_leading_function_renamed_rejected (cc : CompileCfg) (ns : Option (List (String × String)))
+    (G G' post rest : List Char) (hG : plainName G = true) (hG' : plainName G' = true)
+    (hstop : ∀ c cs, post = c :: cs → isName c = false ∧ c.toNat < 0x80)
+    (hpost : post.dropWhile isSpace = '(' :: rest)
+    (hne : String.ofList G ≠ String.ofList G')
+    (hg : String.ofList G ∉ nodeTypes) (hg' : String.ofList G' ∉ nodeTypes)
+    (ho : String.ofList G ∉ opWords stages) (ho' : String.ofList G' ∉ opWords stages)
+    (hunk : fnArity (String.ofList G') = none) (hacc : acceptedTight ns (G ++ post) = true) :
+    ∃ e, compile cc ns (G' ++ post) = .error e :=
+  compile_fails_rename_first cc ns G G' post rest hG hG' hstop hpost hne hg hg' ho ho' hunk hacc
+
+/-- **required arguments removed** -/
+theorem C17_missing_arguments_rejected (cc : CompileCfg) (ns : Option (List (String × String))) (text : List Char)
+    (t : Ast) (hp : parse (fuelFor text) (defaultCfg ns) text = .ok t) {g pfx : String} {args : Ast}
+    {mn : Nat} {mx : Option Nat} {idx : Bool}
+    (hv : Visits t 0 (.call g pfx args)) (hg : fnArity g = some (mn, mx, idx)) (hlt : args.argList.length < mn) :
+    ∃ e, compile cc ns text = .error (.build e) :=
+  compile_fails_missing_arguments cc ns text t hp hv hg hlt
+
+/-- **unknown axis name**, in a tree and as a text: `name::l` with any name that is not one of the twelve axes -/
+theorem C17_unknown_axis_rejected (cc : CompileCfg) (ns : Option (List (String × String))) (text : List Char)
+    (t : Ast) (hp : parse (fuelFor text) (defaultCfg ns) text = .ok t) {a : AxisInfo} {inp : Ast}
+    (hv : Visits t 0 (.axis a inp)) (ha : a.axis ∉ axisTable) :
+    ∃ e, compile cc ns text = .error (.build e) :=
+  compile_fails_unknown_axis cc ns text t hp hv ha
+
+theorem C17_unknown_axis_text_rejected (cc : CompileCfg) (ns : Option (List (String × String))) (name l : List Char)
+    (hn : plainName name = true) (hl : plainName l = true) (hbad : String.ofList name ∉ axisTable) :
+    compile cc ns (name ++ ':' :: ':' :: l) = .error (.build (axisErr (String.ofList name))) :=
+  compile_unknown_axis_text cc ns name l hn hl hbad
+
+/-- **malformed qualified names**: `w:` followed by something that cannot start a local name (`a:`, `a: b`, `a:1`,
+`a:(`); a text that starts with `:`; `w :x`; a second colon (`a:b:c`) -/
+theorem C17_qname_without_local_rejected (cc : CompileCfg) (ns : Option (List (String × String))) (w t1 : List Char)
+    (hw : plainName w = true) (h1 : (Lemmas.ScanTail.mkCR t1).1 ≠ ':') (h2 : (Lemmas.ScanTail.mkCR t1).1 ≠ '*')
+    (h3 : isNameStart (Lemmas.ScanTail.mkCR t1).1 = false) :
+    compile cc ns (w ++ ':' :: t1) = .error (.parse (.scan .invalidQName)) :=
+  compile_qname_without_local cc ns w t1 hw h1 h2 h3
+
+theorem C17_leading_colon_rejected (cc : CompileCfg) (ns : Option (List (String × String))) (text rest : List Char)
+    (h : text.dropWhile isSpace = ':' :: rest) : compile cc ns text = .error (.parse (.scan .invalidToken)) :=
+  compile_leading_colon cc ns text rest h
+
+theorem C17_second_colon_rejected (cc : CompileCfg) (ns : Option (List (String × String))) (w w2 rest : List Char)
+    (hw : plainName w = true) (hw2 : localPart w2 = true) :
+    compile cc ns (w ++ ':' :: (w2 ++ ':' :: rest)) = .error (.parse (.scan .invalidToken)) :=
+  compile_second_colon cc ns w w2 rest hw hw2
+
+end Rejects
 
 end XPathV.Theorems.C17
